@@ -5,6 +5,7 @@ package sess
 import (
 	"bytes"
 	"fmt"
+	"github.com/cenkalti/rain/v2/internal/logger"
 	"net"
 	"os"
 	"path/filepath"
@@ -48,6 +49,8 @@ func New(o Opts) (*torrent.Session, torrent.Config, error) {
 	logOnce.Do(func() {
 		if os.Getenv("VX_RAIN_LOG") == "" {
 			torrent.DisableLogging()
+		} else if os.Getenv("VX_RAIN_LOG") == "debug" {
+			logger.SetDebug()
 		}
 	})
 	cfg := torrent.DefaultConfig
